@@ -227,7 +227,8 @@ def _calibration(ctx, N, cls):
             stubs_ = interp.config["stubs"]
             del stubs_["VoronoiFPS._update_post_selection"]
             try:
-                return interp.call_function(clo, args, kw_, st_, node)
+                names_ = [x.arg for x in clo.fi.node.args.args][1:][: len(args)]  # arguments already bound by position
+                return interp.call_function(clo, args, {k_: v_ for k_, v_ in kw_.items() if k_ not in names_}, st_, node)
             finally:
                 stubs_["VoronoiFPS._update_post_selection"] = through
 
@@ -243,7 +244,12 @@ def _calibration(ctx, N, cls):
         nrm = ctx.call_func(I2f, s2f, "ref.selection_ref.fps_norms", X, 0)
         want = ctx.call_func(I2f, s2f, "ref.selection_ref.voronoi_first_table", X, nrm, i0, ffs)
         if ctx.ob("R-BOTHARMS", "the initialisation runs the first table update once", len(seen) == 1, f"{len(seen)} calls of _update_post_selection", site, cfg):
-            ctx.compare("R-BOTHARMS", "after the initialisation the table holds the FPS distances to the initial pick", N, hf.get("hausdorff_"), want, site, cfg)
+            try:
+                I3f, s3f = ctx.interp(), State()
+                alts_f = [ctx.call_func(I3f, s3f, "ref.selection_ref.voronoi_first_table_active_only", X, nrm, i0, ffs)]
+            except Exception:
+                alts_f = []
+            ctx.compare("R-BOTHARMS", "after the initialisation the table holds the FPS distances to the initial pick", N, hf.get("hausdorff_"), want, site, cfg, alternatives=alts_f)
         ctx.no_shape_conflicts("Shape", "initialisation with its first table update", If, lo_f, site, cfg)
     # calibrated switching point together with a random first pick: the pick is drawn from a stream
     # that the timing trials have not advanced
